@@ -84,7 +84,10 @@ func ibRun(args []string) error {
 		return b
 	}
 	id := 0
-	stratSeqs := [][]string{{"match"}, {"wrongkey"}, {"garbage"}, {"match", "match"}, {"match", "wrongkey"}, {"wrongkey", "match"}, {"garbage", "match", "match"}, {"match", "garbage", "match"}, {"match", "match", "match"}}
+	stratSeqs := [][]string{{"match"}, {"wrongkey"}, {"garbage"}, {"match", "match"}, {"match", "wrongkey"}, {"wrongkey", "match"}, {"garbage", "match", "match"}, {"match", "garbage", "match"}, {"match", "match", "match"},
+		// the library's own strategy (ParsedEd25519KeySigningStrategy): with a sound key, and with a private key whose halves
+		// disagree (seed of one key, cached public half of another) - the signature it makes verifies under no key
+		{"builtin"}, {"builtinbad"}, {"builtin", "builtinbad", "match"}, {"match", "builtinbad"}}
 	sizes := []int{8, 9, 100, 1000, 70000}
 	if thorough {
 		sizes = append(sizes, 0, 3, 7, 64, 65536, 300000)
@@ -135,6 +138,19 @@ func ibRun(args []string) error {
 						}
 						ibs.SigningStrategy = st
 						pub, _ := st.GetPublicKey()
+						logged := mode
+						if mode == "builtin" || mode == "builtinbad" {
+							pk := append(ed25519.PrivateKey{}, key.priv...)
+							if mode == "builtinbad" {
+								copy(pk[32:], keys[(k+si+1)%3].pub)
+								logged = "garbage"
+							} else {
+								logged = "match"
+							}
+							bs := integrityblock.NewParsedEd25519KeySigningStrategy(pk)
+							ibs.SigningStrategy = bs
+							pub, _ = bs.GetPublicKey()
+						}
 						attrs := integrityblock.GenerateSignatureAttributesWithPublicKey(pub)
 						// extra attributes, inserted in either order
 						if r.Intn(2) == 0 {
@@ -147,7 +163,7 @@ func ibRun(args []string) error {
 						withCap := make([]byte, 32, 64)
 						copy(withCap, pub)
 						serr := ibs.SignAndAddNewSignature(ed25519.PublicKey(withCap), attrs)
-						steps = append(steps, map[string]interface{}{"strat": mode, "pk": ints(pub), "attrs": attrsOut(attrs), "err": serr != nil, "stacklen": len(ib.SignatureStack)})
+						steps = append(steps, map[string]interface{}{"strat": logged, "pk": ints(pub), "attrs": attrsOut(attrs), "err": serr != nil, "stacklen": len(ib.SignatureStack)})
 						ids = append(ids, map[string]interface{}{"pk": ints(pub), "id": ints([]byte(webbundleid.GetWebBundleId(pub)))})
 					}
 					for _, is := range ib.SignatureStack {
